@@ -36,21 +36,34 @@ class HarnessResult:
 
 
 def explore(I, entry, args=(), max_paths=20000, expect_panic=None, on_path_end=None, time_budget=None,
-            panic_is_violation=True, setup=None):
-    """Run every path of `entry`. A GoPanic that reaches the top is a violation unless expected."""
+            panic_is_violation=True, setup=None, shard=None):
+    """Run every path of `entry`. A GoPanic that reaches the top is a violation unless expected.
+
+    shard=(k, K): the path tree is split over K processes. Every process runs the same deterministic breadth-first
+    phase until at least 6*K open prefixes exist (only shard 0 reports the paths of that phase), then explores the
+    prefixes k, k+K, k+2K, ... of that frontier depth-first."""
     res = HarnessResult(entry)
     work = [[]]
     t0 = time.time()
+    bfs = shard is not None and shard[1] > 1
+    quiet = False
     while work:
+        if bfs and len(work) >= 6 * shard[1]:
+            bfs = False
+            work = work[shard[0]::shard[1]]
+            if not work:
+                break
+        quiet = bfs and shard[0] != 0
         if res.paths >= max_paths:
             res.inconclusive.append('path budget %d exhausted (%d prefixes left)' % (max_paths, len(work)))
             break
         if time_budget and time.time() - t0 > time_budget:
             res.inconclusive.append('time budget %.0fs exhausted (%d prefixes left)' % (time_budget, len(work)))
             break
-        prefix = work.pop()
+        prefix = work.pop(0) if bfs else work.pop()
         I.new_path(prefix)
-        res.paths += 1
+        if not quiet:
+            res.paths += 1
         status = 'completed'
         try:
             a = list(args)
@@ -86,6 +99,25 @@ def explore(I, entry, args=(), max_paths=20000, expect_panic=None, on_path_end=N
             status = 'inconclusive'
         p = I.path
         work.extend(p.alts)
+        if quiet:
+            # breadth-first phase of a shard other than 0: shard 0 reports these paths
+            if status == 'completed':
+                res.completed -= 1
+            elif status.startswith('ended'):
+                res.ended -= 1
+            elif status == 'unwind':
+                res.unwind_failures.pop()
+            elif status == 'inconclusive':
+                res.inconclusive.pop()
+            elif status.startswith('panic'):
+                res.completed -= 1
+            continue
+        if p.ghost.get('schedule') is not None:
+            sched = ['%s: %s %s' % (a, b, c) for (a, b, c) in p.ghost['schedule']]
+            parked = ['%s stays at %s %s' % (a, b, c) for (a, b, c) in p.ghost.get('parked', [])]
+            for v in p.violations:
+                if isinstance(v.get('model'), dict):
+                    v['model']['schedule'] = sched + parked
         for ob in p.obligations:
             res.obligations += 1
             if ob['status'] == 'discharged':
